@@ -15,6 +15,7 @@
 #   M11 get_result ignores the target type                                                        -> result_type
 #   M12 copy_or_downsample: src_lg_k <= tgt  ->  >=  (keeps the source's larger lg_k)              -> lgk_not_min
 #   M13 rvalue shortcut taken although sketch lg_k > lg_max_k (bound dropped)                     -> lgk_not_min
+#   S3  (seeded C04-3) hll_union::get_upper_bound without check_rebuild_kxq_cur_min                -> estimate_depends_on_call_order
 #   (and removing either repair: F1 -> input_lost / union_emptiness, F10 -> lgk_not_min_after_reset / order_dependent)
 # Behaviour-preserving changes confirmed NOT reported:
 #   H1  eager instead of deferred rebuild (check_rebuild_kxq_cur_min at the end of mergeHll)                              [DESIGN s9]
@@ -443,7 +444,8 @@ MANIFEST = dict(
     level_note=('Proved for the model, not for the C++: the model is hand-written and validated only by the correspondence runs (lg_k 4..10 quick / ..12 thorough, <= 5 inputs). '
                 'Needs fixes/04_union_downsample_rebuild.patch and fixes/04_union_reset_lgk.patch in /repo; the unrepaired tree is reported as VIOLATION. '
                 'Reading of the statement: empty inputs (incl. an empty start_full_size sketch, which is in HLL mode) are skipped by update() and do not lower lg_k; reset() '
-                'starts a new history. Not modelled / not claimed: hipAccum, kxq and all estimates and bounds (floating point; kxq after a rebuild is carried exactly in the '
+                'starts a new history. Implementation-only predicates (no model value): each of the 8 estimator entry points of hll_union returns the same bits when called first and when called after all the '
+                'others on fresh copies of the union (op 19, after every update), and lb <= est <= ub. Not modelled / not claimed: hipAccum, kxq and all estimates and bounds (floating point; kxq after a rebuild is carried exactly in the '
                 'model but never observed; estimates are only requested, to trigger the deferred rebuild); deserialised inputs; allocator behaviour. Input sketches of type '
                 'HLL_4/HLL_6 rely on the C03 proofs (HllSketchProofs.v) for the admissibility hypothesis. Trusted: Coq kernel, extraction, OCaml, g++/ASan, the '
                 'private-access macro in the harness (raw coupons enter through the gadget\'s coupon_update because hll_union::coupon_update, private and unused, does not compile).'),
